@@ -107,7 +107,7 @@ def gen_free(r):
 
 
 def gen(r, tier):
-    n = {"quick": 200, "search": 1000, "thorough": 3000}[tier]
+    n = {"quick": 200, "search": 1000, "thorough": 2000}[tier]
     cases = []
     nb = n // 8
     for _ in range(nb):
